@@ -225,10 +225,13 @@ fn path_json(p: &BezPath) -> Value {
     json!({"svg": p.to_svg().chars().take(1500).collect::<String>(), "elements": p.elements().len()})
 }
 
-pub fn assemble_font(glyf: &[u8], loca: &[u8], long: bool, n_glyphs: usize) -> Vec<u8> {
+/// `x_mins[i]` = xMin of glyph i: the left side bearing is set to it, as in any
+/// consistent TrueType font (skrifa, like FreeType, translates an outline by lsb - xMin).
+pub fn assemble_font(glyf: &[u8], loca: &[u8], long: bool, x_mins: &[i16]) -> Vec<u8> {
+    let n_glyphs = x_mins.len();
     let head = Head { units_per_em: 1000, index_to_loc_format: long as i16, ..Default::default() };
-    let hhea = Hhea { number_of_h_metrics: 1, ..Default::default() };
-    let hmtx = Hmtx::new(vec![LongMetric::new(500, 0)], vec![0; n_glyphs.saturating_sub(1)]);
+    let hhea = Hhea { number_of_h_metrics: n_glyphs as u16, ..Default::default() };
+    let hmtx = Hmtx::new(x_mins.iter().map(|x| LongMetric::new(500, *x)).collect(), vec![]);
     let mut b = FontBuilder::new();
     let _ = b.add_table(&head);
     let _ = b.add_table(&hhea);
@@ -339,7 +342,14 @@ pub fn check_draw_case(ctx: &mut Ctx, rng: &mut Rng) {
     let Some((built, _)) = oracle::check_set(ctx, "bezpath-set", &models, AddVia::Enum) else {
         return;
     };
-    let font_bytes = assemble_font(&built.glyf, &built.loca, built.long, models.len());
+    let x_mins: Vec<i16> = models
+        .iter()
+        .map(|m| match m {
+            MGlyph::Simple { bbox, .. } | MGlyph::Composite { bbox, .. } => bbox[0],
+            MGlyph::Empty => 0,
+        })
+        .collect();
+    let font_bytes = assemble_font(&built.glyf, &built.loca, built.long, &x_mins);
     let res = vf_core::guard(|| -> Result<Vec<RecPen>, String> {
         let font = FontRef::new(&font_bytes).map_err(|e| format!("font unreadable: {e}"))?;
         let outlines = font.outline_glyphs();
